@@ -429,7 +429,8 @@ def run(chk):
     from . import c04_cursor
     chk.rule('R7', "--key=value: the key is the text in front of the '=' and the value starts right behind it "
              "(for every word)", 4)
-    c04_cursor.run(chk, prog, rule=None, split_rule='R7')
+    chk.rule('R13', 'tokeniser cursor invariant: every word is analysed from its first character (shared with C04-R6)', 4)
+    c04_cursor.run(chk, prog, rule='R13', split_rule='R7')
     # R8: which following word / rest of the word becomes the value - the value-mode table of C02-R12
     from . import c02
     chk.rule('R8', 'a key is paired with the following word / the glued rest according to its value mode '
